@@ -792,7 +792,7 @@ class Machine:
         self.opcount = {}
         for g in module.globals:
             size, al = layout(g.ty)
-            al = max(al, g.align or 1)
+            al = g.align or al  # an explicit alignment replaces the ABI alignment (it may be smaller)
             b = Block(size, al, g.name, const=g.const)
             if g.init is not None:
                 cells = value_to_bytes(g.init, g.ty, ("g", g.name))
@@ -975,7 +975,7 @@ class Machine:
                 raise Excluded("limit:alloca-size")
             bid = self.next_blk
             self.next_blk += 1
-            self.mem[bid] = Block(total, max(al, A["align"] or 1), "alloca")
+            self.mem[bid] = Block(total, A["align"] or al, "alloca")
             frame_blocks.append(bid)
             return (bid, 0)
         if k == "load":
